@@ -1,5 +1,6 @@
 import AptMirror.Lemmas.Publish
 import AptMirror.Lemmas.Frame
+import AptMirror.Lemmas.Mirror
 /-!
 # C03 — metadata becomes visible atomically and only after the files it references
 
@@ -18,6 +19,12 @@ functional filesystem; `Model/Control.lean` — the stage order of `mirror()`.  
 "every prefix of the operation list" (`List.take k`), for every `k`, every set of staged files with
 any alias lists, every prior filesystem.  Atomicity of `rename(2)` itself is the step rule of
 `FS.renameDir` (trusted, DESIGN §4.4).
+
+The ordering clauses are proved on the whole-run model (`Model/Mirror.lean`), where a run that ends without error is one
+operation sequence (pool stage chunk by chunk, the swap as one step, the cleaner's removals): at **every** prefix of it, either
+the old metadata is live and no file that was complete when the run began has been touched (nothing the old metadata
+references is deleted, rewritten or truncated), or the new metadata is live and every pool file it references is present with
+its declared size — `C03_order`; removals only ever follow the swap — `C03_delete_after_live`.
 -/
 namespace AptMirror
 
@@ -234,5 +241,103 @@ example : (replay ((moveOps exN.swap exFiles true).take 3) exFS).view exN.swap.c
           (replay ((moveOps exN.swap exFiles true).take 4) exFS).view exN.swap.old ["s", "Release"] = some { size := 5, mtime := some 1, tag := 1 } ∧
           (replay ((moveOps exN.swap exFiles true).take 5) exFS).view exN.swap.cur ["s", "Release"] = some { size := 7, mtime := some 2, tag := 2 } := by
   decide
+
+
+/-! ## ordering of pool files, metadata and deletions over the whole run (L2) -/
+namespace Mirror
+
+theorem take_split (P R : List Op) (k : Nat) :
+    (P ++ R).take k = P.take k ∨ (P.length < k ∧ (P ++ R).take k = P ++ R.take (k - P.length)) := by
+  by_cases h : k ≤ P.length
+  · left; exact List.take_append_of_le_length h
+  · right
+    refine ⟨by omega, ?_⟩
+    rw [List.take_append]
+    congr 1
+    exact List.take_of_length_le (by omega)
+
+/-- **C03 (new metadata only after its files; nothing the old metadata needs is touched before).** Kill the run before any
+    operation `k`: either the old metadata is still live and every path that no transfer of this run is responsible for (it is
+    not needed by the new version, or it already held a file of the declared size) is exactly as it was; or the new metadata
+    is live and every pool file it references is in place with its declared size. -/
+theorem C03_order (t : Tree) (need : Need) (hok : NeedOK need) (k : Nat) :
+    ((crash t need k).dists = t.dists ∧
+      ∀ p, (∀ n ∈ need.pool, n.path = p → present t n = true) → (crash t need k).pool p = t.pool p) ∨
+    ((crash t need k).dists = lookupMeta need.mfiles ∧
+      ∀ n ∈ need.pool, ∃ f, (crash t need k).pool n.path = some f ∧ f.size = n.size) := by
+  unfold crash runOps
+  rw [List.append_assoc]
+  rcases take_split (poolOps t need.pool) ([Op.swap need.mfiles] ++ cleanOps (exec (poolOps t need.pool) t) need) k with h | ⟨hlt, h⟩
+  · -- still inside the pool stage
+    left
+    rw [h]
+    have hops : ∀ op ∈ (poolOps t need.pool).take k,
+        ∃ q, (∃ n ∈ need.pool, n.path = q ∧ present t n = false) ∧ op.writes q := by
+      intro op hop
+      obtain ⟨n, hn, ho, hp⟩ := poolOps_absent need.pool t hok.distinct hok.sums op (List.mem_of_mem_take hop)
+      exact ⟨n.path, ⟨n, hn, rfl, hp⟩, writeOps_writes n op ho⟩
+    obtain ⟨a, b, _⟩ := exec_writes_only _ (fun q => ∃ n ∈ need.pool, n.path = q ∧ present t n = false) t hops
+    refine ⟨a, fun p hp => b p ?_⟩
+    rintro ⟨n, hn, hpath, hpr⟩
+    rw [hp n hn hpath] at hpr
+    cases hpr
+  · -- the pool stage is complete, the swap has happened, some removals may have
+    right
+    rw [h, exec_append]
+    obtain ⟨j, hj⟩ : ∃ j, k - (poolOps t need.pool).length = j + 1 := ⟨k - (poolOps t need.pool).length - 1, by omega⟩
+    rw [hj, List.singleton_append, List.take_succ_cons, exec_cons]
+    obtain ⟨pa, _, _, _⟩ := pool_effect need.pool t hok.distinct hok.sums
+    unfold cleanOps
+    rw [← List.map_take]
+    obtain ⟨ra, rb, _⟩ := removes_effect
+      (List.take j ((exec (poolOps t need.pool) t).dom.eraseDups.filter fun p => ((exec (poolOps t need.pool) t).pool p).isSome && !keep need p))
+      (step (exec (poolOps t need.pool) t) (.swap need.mfiles))
+    refine ⟨by rw [rb]; rfl, fun n hn => ?_⟩
+    obtain ⟨f, hf, hs, _⟩ := pa n hn
+    refine ⟨f, ?_, hs⟩
+    rw [ra n.path]
+    have hnot : n.path ∉ List.take j ((exec (poolOps t need.pool) t).dom.eraseDups.filter fun p =>
+        ((exec (poolOps t need.pool) t).pool p).isSome && !keep need p) := by
+      intro hm
+      have := List.mem_of_mem_take hm
+      simp only [List.mem_filter, Bool.and_eq_true, Bool.not_eq_true'] at this
+      rw [keep_of_needed need n hn] at this
+      cases this.2.2
+    rw [if_neg hnot]
+    exact hf
+
+/-- **C03 (files are deleted only after the metadata that no longer references them is live).** A prefix of the run that
+    contains a removal contains the swap before it. -/
+theorem C03_delete_after_live (t : Tree) (need : Need) (k : Nat) (p : Path)
+    (h : Op.remove p ∈ (runOps t need).take k) : ∃ i, i < k ∧ (runOps t need)[i]? = some (.swap need.mfiles) ∧
+      ∀ j, j ≤ i → ∀ q, (runOps t need)[j]? ≠ some (.remove q) := by
+  refine ⟨(poolOps t need.pool).length, ?_, ?_, ?_⟩
+  · -- a removal cannot be among the first |pool ops| + 1 operations
+    by_cases hk : (poolOps t need.pool).length < k
+    · exact hk
+    · exfalso
+      have hle : k ≤ (poolOps t need.pool).length := by omega
+      unfold runOps at h
+      rw [List.append_assoc, List.take_append_of_le_length hle] at h
+      obtain ⟨n, _, ho⟩ := poolOps_mem _ _ _ (List.mem_of_mem_take h)
+      have := writeOps_writes n _ ho
+      exact this
+  · unfold runOps
+    rw [List.append_assoc, List.getElem?_append_right (Nat.le_refl _)]
+    simp
+  · intro j hj q hq
+    unfold runOps at hq
+    rw [List.append_assoc] at hq
+    by_cases hlt : j < (poolOps t need.pool).length
+    · rw [List.getElem?_append_left hlt] at hq
+      have hmem := List.mem_of_getElem? hq
+      obtain ⟨n, _, ho⟩ := poolOps_mem _ _ _ hmem
+      exact writeOps_writes n _ ho
+    · have : j = (poolOps t need.pool).length := by omega
+      subst this
+      rw [List.getElem?_append_right (Nat.le_refl _)] at hq
+      simp at hq
+
+end Mirror
 
 end AptMirror
